@@ -354,16 +354,49 @@ impl<F: Field> Circuit<F> {
                         && !a_aliased_by_out
                     {
                         F::TWO // creator (private input or hint output)
+                    } else if a_aliased_by_out && *kind != AluOpKind::BoolCheck {
+                        // `a` shares its witness with the `out` this row creates (e.g.
+                        // `connect(x, x + y)`): it must read that slot, or the `a` column would
+                        // float free of the value every other table sees. BoolCheck is exempt:
+                        // its AIR ties `a` to `out` directly.
+                        F::ONE
                     } else {
                         F::ZERO // skip
                     };
+
+                    // A private input / hint output appearing in several operand positions of
+                    // the ALU row that first uses it must be created once: `a` takes the creator
+                    // role, later positions of the same witness in this row are readers.
+                    let a_creates = a_state == F::TWO;
+                    let b_created_by_a = a_creates && b.0 == a.0;
+
+                    // b and out creator flags (now independent).
+                    // Private inputs can be b-creators even in the forward case.
+                    // Same when `b` shares its witness with an `out` this row creates.
+                    let b_created_by_out = !out_already_defined && b.0 == out.0;
+                    let b_already_defined =
+                        b_already_defined || b_created_by_a || b_created_by_out;
+                    let b_is_private_creator =
+                        !b_already_defined && private_input_wids.contains(&b.0);
+                    // A hint output in the `out` slot is a backward op: the hint value is given,
+                    // so `b` is the witness this row solves for and takes the bus creator role
+                    // (the hint output itself is still created via `out_is_creator`).
+                    // Likewise a private input in the `out` slot is given, not computed.
+                    let out_is_backward = out_already_defined
+                        || hint_output_wids.contains(&out.0)
+                        || private_input_wids.contains(&out.0);
+                    let out_is_creator = F::from_bool(!out_already_defined);
+                    let b_is_creator =
+                        F::from_bool(b_is_private_creator || out_is_backward && !b_already_defined);
 
                     // `c` is absent for Add/Mul/BoolCheck. Do not use WitnessId(0) as a fake c:
                     // witness 0 may hold Const(0); treating it as c would set c_state = reader and
                     // duplicate WitnessChecks reads with b when assert_zero connects the sub result
                     // to ExprId::ZERO (b aliases witness 0).
                     let (c_wid, c_state) = c.as_ref().map_or((WitnessId(0), F::ZERO), |w| {
-                        let c_defined = (w.0 as usize) < defined.len() && defined[w.0 as usize];
+                        let c_defined = (w.0 as usize) < defined.len() && defined[w.0 as usize]
+                            || a_creates && w.0 == a.0
+                            || b_is_creator == F::ONE && w.0 == b.0;
                         let c_aliased_by_out = !out_already_defined && w.0 == out.0;
                         let c_state = if c_defined {
                             F::ONE // reader
@@ -372,23 +405,13 @@ impl<F: Field> Circuit<F> {
                             && !c_aliased_by_out
                         {
                             F::TWO // creator (private input or hint output)
+                        } else if c_aliased_by_out && *kind != AluOpKind::BoolCheck {
+                            F::ONE // reads the slot this row's `out` creates (see `a` above)
                         } else {
                             F::ZERO // skip
                         };
                         (*w, c_state)
                     });
-
-                    // b and out creator flags (now independent).
-                    // Private inputs can be b-creators even in the forward case.
-                    let b_is_private_creator =
-                        !b_already_defined && private_input_wids.contains(&b.0);
-                    // A hint output in the `out` slot is a backward op: the hint value is given,
-                    // so `b` is the witness this row solves for and takes the bus creator role
-                    // (the hint output itself is still created via `out_is_creator`).
-                    let out_is_backward = out_already_defined || hint_output_wids.contains(&out.0);
-                    let out_is_creator = F::from_bool(!out_already_defined);
-                    let b_is_creator =
-                        F::from_bool(b_is_private_creator || out_is_backward && !b_already_defined);
 
                     preprocessed.primitive[PrimitiveOpType::Alu as usize].extend([
                         sel_add_vs_mul,
